@@ -24,7 +24,7 @@ def gen_class(rng, lang: str, idx: int, target_methods: int):
     has_kw = rng.random() < 0.3
     if has_kw:
         name = name + rng.choice(KEYWORDS)
-    members = ["pub"] * target_methods
+    members = [("asyncPub" if rng.random() < 0.3 else "pub") for _ in range(target_methods)]
     extras = {"py": ["priv", "dunder", "ctor", "property", "static", "field"], "ts": ["priv", "ctor", "property", "static", "field"],
               "rs": ["priv", "ctor", "static", "field"]}[lang]
     for _ in range(rng.randint(0, 5)):
@@ -59,6 +59,8 @@ def gen_class(rng, lang: str, idx: int, target_methods: int):
             if m == "pub":
                 n = nm("act_")
                 add(f"    def {n}(self):")
+            elif m == "asyncPub":
+                add(f"    async def {nm('co_')}(self):")
             elif m == "priv":
                 add(f"    def {nm('_hid_')}(self):")
             elif m == "dunder":
@@ -87,6 +89,8 @@ def gen_class(rng, lang: str, idx: int, target_methods: int):
             noise("  ")
             if m == "pub":
                 head = f"  {nm('act')}() {{"
+            elif m == "asyncPub":
+                head = f"  async {nm('co')}() {{"
             elif m == "priv":
                 head = f"  {nm('_hid')}() {{"
             elif m == "ctor":
@@ -124,6 +128,8 @@ def gen_class(rng, lang: str, idx: int, target_methods: int):
                 noise("    ")
                 if m == "pub":
                     add(f"    pub fn {nm('act_')}(&self) -> i32 {{")
+                elif m == "asyncPub":
+                    add(f"    pub async fn {nm('co_')}(&self) -> i32 {{")
                 elif m == "priv":
                     add(f"    fn {nm('_hid_')}(&self) -> i32 {{")
                 elif m == "ctor":
@@ -138,13 +144,26 @@ def gen_class(rng, lang: str, idx: int, target_methods: int):
     return {"name": name, "members": members, "lines": lines, "kinds": kinds, "hasKeyword": has_kw}
 
 
+def rename_class(c, new_name, has_kw):
+    old = c["name"]
+    return {**c, "name": new_name, "hasKeyword": has_kw, "lines": [l.replace(old, new_name) for l in c["lines"]]}
+
+
 def gen_case(rng, idx: int):
     lang = rng.choice(["py", "py", "ts", "rs"])
     max_methods = rng.randint(1, 6)
     classes = []
     for ci in range(rng.randint(1, 4)):
         target = max(0, max_methods + rng.choice([-2, -1, 0, 0, 1, 1, 2, 3]))
-        classes.append(gen_class(rng, lang, idx * 10 + ci, target))
+        c = gen_class(rng, lang, idx * 10 + ci, target)
+        if classes and lang != "rs" and rng.random() < 0.25:
+            # two classes of one file with the same name (e.g. nested Config/Meta classes): still one verdict each
+            c = rename_class(c, classes[0]["name"], classes[0]["hasKeyword"])
+            c["lines"] = ([f"def factory_{idx}_{ci}():"] + ["    " + l if l else l for l in c["lines"]]) if lang == "py" else \
+                         ([f"namespace ns_{idx}_{ci} {{"] + ["  " + l if l else l for l in c["lines"]] + ["}"])
+            c["kinds"] = ["outside"] + c["kinds"] + ([] if lang == "py" else ["outside"])
+            c["header_offset"] = 1
+        classes.append(c)
     # max_loc around one class's measured size (computed by the model later: use the raw code-line count here)
     c0 = rng.choice(classes)
     size = len([k for k in c0["kinds"] if k == "code"]) if lang != "ts" else len([k for k in c0["kinds"] if k != "outside"])
@@ -153,7 +172,12 @@ def gen_case(rng, idx: int):
     overrides = []
     r = rng.random()
     if r < 0.3:
-        overrides.append({"language": LANGUAGE[lang], "max_methods": max(1, max_methods + rng.choice([-1, 1, 2])), "max_loc": max(1, max_loc + rng.choice([-1, 0, 3]))})
+        o = {"language": LANGUAGE[lang]}
+        if rng.random() < 0.6:
+            o["max_methods"] = max(1, max_methods + rng.choice([-1, 1, 2]))
+        if rng.random() < 0.6 or "max_methods" not in o:
+            o["max_loc"] = max(1, max_loc + rng.choice([-1, 0, 3]))
+        overrides.append(o)
     elif r < 0.6:
         other = rng.choice([l for l in ("python", "typescript", "rust") if l != LANGUAGE[lang]])
         overrides.append({"language": other, "max_methods": 1, "max_loc": 1})
@@ -164,7 +188,7 @@ def gen_case(rng, idx: int):
 def render_file(case):
     out, headers = [], []
     for c in case["classes"]:
-        headers.append(len(out) + 1)
+        headers.append(len(out) + 1 + c.get("header_offset", 0))
         out += c["lines"]
         out += ["", ""]
     return out, headers
@@ -182,7 +206,7 @@ def impl_case(args):
         f.write_text("\n".join(lines) + "\n")
         cfg = {"max_methods": case["base"]["max_methods"], "max_loc": case["base"]["max_loc"], "check_keywords": case["checkKeywords"]}
         for o in case["overrides"]:
-            cfg[o["language"]] = {"max_methods": o["max_methods"], "max_loc": o["max_loc"]}
+            cfg[o["language"]] = {k: o[k] for k in ("max_methods", "max_loc") if k in o}
         (proj / ".thailint.yaml").write_text(yaml.safe_dump({"srp": cfg}))
         code, stdout = core.run_cli(["srp", "--format", "json", str(f)], cwd=proj)
         vs = core.violations_json(stdout)
